@@ -318,3 +318,39 @@ func ZZDirector() {
 	}
 	vReach("end")
 }
+
+// ZZUnknownOutcome (C02): a write whose outcome the client never learns takes effect at most once.
+// On a leader with RF 3 and no follower acknowledgement a write is logged but cannot commit; NewTerm
+// fails its callback (unknown outcome for the client). The same node then becomes leader in later terms
+// (twice): the logged write is applied exactly once — never twice, never partially — and reads observe
+// it only after it is part of the committed state.
+func ZZUnknownOutcome() {
+	w, m := zzLeaderState(1, 0)
+	lc := zzLeaderOver(w, m, 3, &zzRpc{followers: map[string]*followerController{}})
+	_, err := lc.BecomeLeader(context.Background(), &proto.BecomeLeaderRequest{Term: 3, ReplicationFactor: 3,
+		FollowerMaps: map[string]*proto.EntryId{"f1": {Term: 2, Offset: 0}, "f2": {Term: 2, Offset: 0}}})
+	vAssert("leading", err == nil && lc.status == proto.ServingStatus_LEADER)
+	var ok, bad int
+	var res *proto.WriteResponse
+	lc.Write(context.Background(), &proto.WriteRequest{Puts: []*proto.PutRequest{{Key: "k", Value: []byte{42}}}}, zzWCb{&ok, &bad, &res})
+	vAssert("logged-but-not-acknowledged", ok == 0 && bad == 0 && w.lastAppended == 1)
+	gr, gerr := lc.db.Get(&proto.GetRequest{Key: "k", IncludeValue: true})
+	vAssert("uncommitted-write-not-visible", gerr == nil && gr.Value[0] == 0 && gr.Version.ModificationsCount == 0)
+	_, err = lc.NewTerm(&proto.NewTermRequest{Term: 4})
+	vAssert("fenced", err == nil)
+	vAssert("client-told-failure-exactly-once", ok == 0 && bad == 1)
+	for term := int64(4); term <= 5; term++ {
+		if term == 5 {
+			_, err = lc.NewTerm(&proto.NewTermRequest{Term: 5})
+			vAssert("fenced-again", err == nil)
+		}
+		_, err = lc.BecomeLeader(context.Background(), &proto.BecomeLeaderRequest{Term: term, ReplicationFactor: 1})
+		vAssert("leader-again", err == nil)
+		gr, gerr = lc.db.Get(&proto.GetRequest{Key: "k", IncludeValue: true})
+		vAssert("applied-exactly-once", gerr == nil && gr.Value[0] == 42 && gr.Version.ModificationsCount == 1 && gr.Version.VersionId == 1)
+		co, _ := lc.db.ReadCommitOffset()
+		vAssert("commit-offset-is-the-write", co == 1)
+	}
+	vAssert("callback-not-fired-again", ok == 0 && bad == 1)
+	vReach("end")
+}
